@@ -139,6 +139,9 @@ type gEnv struct {
 	// phiBind: along the acyclic path under evaluation, the incoming value of every phi the path passes
 	// (size := 5 / 9 selected in a switch, returned later): terms are computed per path (withBind)
 	phiBind map[*ssa.Phi]ssa.Value
+	// parent: the environment of the enclosing function when fn is a function literal called from it: the values
+	// of captured variables are terms of the parent
+	parent *gEnv
 }
 
 // withBind evaluates f with the phis bound as on one path; terms computed meanwhile are not kept.
@@ -196,6 +199,14 @@ func (ev *gEnv) intSym(name string, t types.Type) cT {
 }
 
 func (ev *gEnv) term(v ssa.Value) cT {
+	if c := capturedLoadOf(v); c != nil {
+		v = c
+	}
+	if ev.parent != nil {
+		if in, ok := v.(interface{ Parent() *ssa.Function }); ok && in.Parent() != nil && in.Parent() != ev.fn && in.Parent() == ev.parent.fn {
+			return ev.parent.term(v)
+		}
+	}
 	if t, ok := ev.memo[v]; ok {
 		return t
 	}
@@ -486,6 +497,9 @@ func (ev *gEnv) callResult(call *ssa.Call, idx int) cT {
 	}
 	// summarise the callee's exits at these arguments
 	sub := &gEnv{an: an, fn: callee, par: map[*ssa.Parameter]cT{}, memo: map[ssa.Value]cT{}, ctx: strings.Join(argStrs, ", "), depth: ev.depth + 1}
+	if callee.Parent() == ev.fn {
+		sub.parent = ev
+	}
 	for i, p := range callee.Params {
 		if i < len(args) {
 			sub.par[p] = args[i]
@@ -1178,6 +1192,9 @@ func runR13_3(c *Ctx, r *R) {
 					if callee := call.Call.StaticCallee(); callee != nil && callee.Pkg != nil && strings.HasPrefix(callee.Pkg.Pkg.Path(), Mod) && callee.Blocks != nil && loopFree(callee) {
 						var argStrs []string
 						sub := &gEnv{an: an, fn: callee, par: map[*ssa.Parameter]cT{}, memo: map[ssa.Value]cT{}, depth: ev.depth + 1}
+						if callee.Parent() == ev.fn {
+							sub.parent = ev
+						}
 						typeBound := true
 						for i, p := range callee.Params {
 							t := ev.term(call.Call.Args[i])
